@@ -97,6 +97,11 @@ class TFloat(float):
     def __pos__(self): return self
 
 
+class SymFloat(TFloat):
+    """a Python float argument whose value is symbolic (the float value is only a placeholder: no numeric enclosure is attached)"""
+    __slots__ = ()
+
+
 def lift(v):
     """python / numpy scalar -> z3 term"""
     if isinstance(v, z3.ExprRef):
@@ -104,7 +109,7 @@ def lift(v):
     if isinstance(v, TFloat):
         t = v.term
         ctx = Ctx.cur
-        if ctx is not None and not is_num(t):
+        if ctx is not None and not is_num(t) and not isinstance(v, SymFloat):
             key = ("tfloat", t.get_id())
             if key not in ctx.memo:
                 # numeric enclosure of a transcendental constant: the float evaluation is accurate to ~1e-15 relative
